@@ -216,6 +216,18 @@ Theorem tls_error_independent_of_contents : forall c1 c2 e,
   tls_error_text (load_certificate c1) e = tls_error_text (load_certificate c2) e.
 Proof. exact tls_error_ni_l. Qed.
 
+(* STATE: the calls that build a consumer from a configuration (ToClient, ToListener/ToServer, ToClientConn,
+   LoadTLSConfig, Validate, a request through the built client) leave the configuration as it was — no plain
+   copy of an opaque value is kept in it — so EVERY rendering of the configuration after any sequence of such
+   calls is its rendering before them (and the rendering theorems above apply to it unchanged) *)
+Theorem rendering_after_use_is_rendering_before : forall (R : Type) (rend : hdrs -> R) bs cfg,
+  rend (fold_left (fun c b => config_after b c) bs cfg) = rend cfg.
+Proof. exact after_use_l. Qed.
+
+Theorem model_after_use_passes_the_checker : forall bs cfg before,
+  prop_ok (CAfterUse bs (encA cfg) (encA (fold_left (fun c b => config_after (builder_of b) c) bs cfg)) (map A before) (map A before)) = true.
+Proof. exact (fun bs cfg before => proj2 (Nat.eqb_eq _ _) (model_passes_after_use bs cfg before)). Qed.
+
 (* Validate() of the configuration structs (run and printed at collector start-up): its verdict and
    error text are decided by the non-opaque settings and do not depend on the header values / PEM contents *)
 Theorem validate_independent_of_secrets : forall b k h1 h2 e,
@@ -391,6 +403,8 @@ Print Assumptions model_give_back_passes_the_checker.
 Print Assumptions consumer_result_is_next_layers.
 Print Assumptions consumer_result_independent_of_secrets.
 Print Assumptions tls_error_independent_of_contents.
+Print Assumptions rendering_after_use_is_rendering_before.
+Print Assumptions model_after_use_passes_the_checker.
 Print Assumptions validate_independent_of_secrets.
 Print Assumptions tls_validate_independent_of_contents.
 Print Assumptions tls_loader_gets_pem.
